@@ -156,7 +156,19 @@ def c_movelist_capacity(site, fx):
 
 
 def c_pv_capacity(site, fx):
-    return in_fn(site, "PrincipalVariation::push", "PrincipalVariation::append") and site.family in ("capacity", "unwrap")
+    if not (in_fn(site, "PrincipalVariation::push", "PrincipalVariation::append") and site.family in ("capacity", "unwrap")):
+        return False
+    # checked part: the line's capacity (evaluated) is at least the maximum search depth
+    try:
+        depth = fx.const("search::MAX_SEARCH_DEPTH").get("int")
+    except Exception:
+        return False
+    caps = []
+    for l in range(len(site.body.locals)):
+        m = re.search(r"ArrayVec<chess::moves::Move, (\d+)>", site.body.local_ty(l) or "")
+        if m:
+            caps.append(int(m.group(1)))
+    return bool(caps) and isinstance(depth, int) and min(caps) >= depth
 
 
 def c_debug_invariant(site, fx):
@@ -292,7 +304,17 @@ def c_picker_idx(site, fx):
 
 def c_picker_scores(site, fx):
     # scores[i] (len 255) indexed by positions of the move list (len <= 218)
-    return site.family == "bounds" and "move_picker::MovePicker::" in bn(site)
+    if not (site.family == "bounds" and "move_picker::MovePicker::" in bn(site)):
+        return False
+    # checked part: the array indexed has at least as many slots as the move list can hold
+    ln = deep_strip(site.ops[0]) if site.ops else None
+    try:
+        cap = fx.const("moves::MAX_LEGAL_MOVES").get("int")
+    except Exception:
+        cap = None
+    if isinstance(ln, tuple) and ln[0] == "const" and isinstance(ln[1], int) and isinstance(cap, int):
+        return ln[1] >= cap
+    return False
 
 
 def c_picker_unreachable(site, fx):
@@ -405,7 +427,13 @@ def c_plies_assumption(site, fx):
     if site.family == "arith" and site.what == "Add" and site.ty == "u8" and in_fn(site, "negamax::negamax"):
         return any(isinstance(deep_strip(o), tuple) and deep_strip(o)[:2] == ("arg", 5) for o in site.ops)
     if site.family == "bounds" and in_fn(site, "KillersTable::get_0", "KillersTable::get_1", "KillersTable::try_push"):
-        return True
+        # checked part: one slot per ply up to the maximum search depth
+        ln = deep_strip(site.ops[0]) if site.ops else None
+        try:
+            depth = fx.const("search::MAX_SEARCH_DEPTH").get("int")
+        except Exception:
+            return False
+        return isinstance(ln, tuple) and ln[0] == "const" and isinstance(ln[1], int) and isinstance(depth, int) and (ln[1] >= depth or ln[1] == 2)
     return False
 
 
@@ -439,7 +467,7 @@ CLASSES = [
     ("picker-get", c_picker_get, "move list element at an index below its length", "belief"),
     ("picker-swap", c_picker_swap, "swap of two positions inside the move list", "belief"),
     ("picker-idx", c_picker_idx, "idx - 1 right after next_best_move advanced idx", "checked"),
-    ("picker-scores", c_picker_scores, "score slot of a move-list position (255 slots >= 218 moves)", "belief"),
+    ("picker-scores", c_picker_scores, "score slot of a move-list position: the array length (evaluated) is >= the move list's capacity MAX_LEGAL_MOVES; the index being a list position is believed", "belief"),
     ("picker-unreachable", c_picker_unreachable, "every GenStage value is tested above", "checked"),
     ("mobility-tables", c_mobility_tables, "attack-set sizes bounded by piece geometry", "belief"),
     ("see-pieces", c_see, "pieces taking part in an exchange exist on their squares", "belief"),
